@@ -36,7 +36,7 @@ EVS = ["train_start", "epoch_start", "batch_start", "batch_end", "epoch_end", "t
 
 def configs(tier, seed):
     rng = np_rng(ID, seed, "configs")
-    n = 16 if tier == "quick" else 200
+    n = 16 if tier == "quick" else 1200
     out = []
     for i in range(n):
         kind = gen.KINDS[i % 3]
